@@ -154,6 +154,11 @@ func buildTot(c *totCase) *totInstance {
 	if c.MW {
 		ti.f.Use(func() { ti.cur.mw++ })
 	}
+	if len(c.Routes)%2 == 0 {
+		// Before handlers that decline (return false) run ahead of routing and must not influence the outcome
+		ti.f.Before(func(http.ResponseWriter, *http.Request) bool { return false })
+		ti.f.Before(func(http.ResponseWriter, *http.Request) bool { return false })
+	}
 	if c.NF == "custom" {
 		ti.f.NotFound(func() (int, string) { ti.cur.nf++; return 404, "custom-nf" })
 	}
